@@ -12,6 +12,13 @@
    condition,  Holds(c, p) <=> p.t in [lo, hi] /\ residual(p)  at every grid point - for
    the raw range (open end = unbounded) and for the two accessor views.
 
+   obs.more   the later calls: calls 2 and 3 on the SAME parsed expression and one call on a fresh
+              parse, each [call, lo, hi, loT, hiT, loN, hiN, rt | nores, post (printed condition after
+              the call), pre (fresh parse only)] or [call, err | panic];  obs.p0 / obs.p1 = printed
+              condition before / after the first call.  Every call must satisfy the property
+              (a failing later call has sig "call 2: ..." / "call fresh: ..."); a printed condition that
+              a call changed is class condition-modified.
+
    Verdicts:  ok | panic | rejected-parse | rejected (ConditionExpr error on a condition of the
    property's domain) | unmappable | split-mismatch (sig: which parts differ from the design's
    split) | accessor-mismatch | drift:* (property holds, the code no longer computes what
@@ -27,15 +34,19 @@ Has(r, f) == f \in DOMAIN r
 V(class, sig) == [ok |-> FALSE, class |-> class, sig |-> sig]
 OK == [ok |-> TRUE, class |-> "ok", sig |-> ""]
 
-Verdict(r) ==
-  LET o == r.obs IN
-  IF r.edge # EdgeMap THEN V("machinery:edge-flag", "")
-  ELSE IF Has(o, "panic") \/ Has(o, "harness_panic") THEN V("panic", "")
+\* the part of one call's observation that the property speaks about
+Failed(o) == Has(o, "panic") \/ Has(o, "harness_panic") \/ Has(o, "perr") \/ Has(o, "err")
+RtOf(o) == IF Has(o, "nores") THEN <<>> ELSE o.rt
+Core(o) == <<o.lo, o.hi, o.loT, o.hiT, o.loN, o.hiN, RtOf(o)>>     \* only for a call that did not fail
+
+\* the property on ONE call's observation o of the condition r.c (no drift classes here)
+Judge1(r, o) ==
+  IF Has(o, "panic") \/ Has(o, "harness_panic") THEN V("panic", "")
   ELSE IF Has(o, "perr") THEN V("rejected-parse", "")
   ELSE IF Has(o, "err") THEN V("rejected", "")
   ELSE IF \E e \in {o.lo, o.hi, o.loT, o.hiT, o.loN, o.hiN} : e.k = Unmappable.k THEN V("unmappable", "")
   ELSE
-    LET rt == IF Has(o, "nores") THEN <<>> ELSE o.rt
+    LET rt == RtOf(o)
         d == DesignSplit(r.c)
         diff == (IF o.lo # d.lo THEN "min " ELSE "") \o (IF o.hi # d.hi THEN "max " ELSE "")
                 \o (IF rt # d.rt THEN "residual" ELSE "")
@@ -50,10 +61,45 @@ Verdict(r) ==
     IN IF ~SplitOK(r.c, o.lo, o.hi, rt) THEN V("split-mismatch", diff)
        ELSE IF ~ViewOK(o.loT, o.hiT) THEN V("accessor-mismatch", "MinTime()/MaxTime()")
        ELSE IF NanoRepr(o.lo) /\ NanoRepr(o.hi) /\ ~ViewOK(o.loN, o.hiN) THEN V("accessor-mismatch", "MinTimeNano()/MaxTimeNano()")
-       ELSE IF d.err # "" THEN V("drift:accepted", "")
-       ELSE IF o.lo # d.lo \/ o.hi # d.hi THEN V("drift:range", diff)
-       ELSE IF (IF Has(o, "nores") THEN d.res # Nil ELSE d.res = Nil \/ d.res # o.res) THEN V("drift:residual", "")
        ELSE OK
+
+\* drift of the first call against the design spec (the property holds)
+Drift(r, o) ==
+  LET d == DesignSplit(r.c)
+      rt == RtOf(o)
+      diff == (IF o.lo # d.lo THEN "min " ELSE "") \o (IF o.hi # d.hi THEN "max " ELSE "")
+  IN IF d.err # "" THEN V("drift:accepted", "")
+     ELSE IF o.lo # d.lo \/ o.hi # d.hi THEN V("drift:range", diff)
+     ELSE IF (IF Has(o, "nores") THEN d.res # Nil ELSE d.res = Nil \/ d.res # o.res) THEN V("drift:residual", "")
+     ELSE OK
+
+\* The property quantifies over conditions, not over "first calls on a fresh parse": every one of the
+\* recorded calls - three on the same parsed expression, one on a fresh parse - must satisfy it.  A later
+\* call whose observation equals the first call's is right iff the first is (nothing to re-evaluate).
+\* Separately (class condition-modified): splitting must leave the caller's condition as it was -
+\* its printed form before the first call equals the printed form after every call.
+More(o) == IF Has(o, "more") THEN o.more ELSE <<>>
+Verdict(r) ==
+  LET o == r.obs IN
+  IF r.edge # EdgeMap THEN V("machinery:edge-flag", "")
+  ELSE
+    LET v1 == Judge1(r, o)
+        ms == More(o)
+        \* (evaluated only when the first call is right, so the first call did not fail)
+        bad == {k \in 1..Len(ms) : Failed(ms[k]) \/ (Core(ms[k]) # Core(o) /\ ~Judge1(r, ms[k]).ok)}
+        printedBad == IF ~Has(o, "p0") THEN {}
+                      ELSE (IF o.p1 # o.p0 THEN {0} ELSE {})
+                           \cup {k \in 1..Len(ms) : Has(ms[k], "post")
+                                                    /\ ms[k].post # (IF Has(ms[k], "pre") THEN ms[k].pre ELSE o.p0)}
+    IN IF ~v1.ok THEN v1
+       ELSE IF bad # {} THEN
+              LET k == CHOOSE x \in bad : \A y \in bad : x <= y
+                  vk == Judge1(r, ms[k])
+              IN V(vk.class, "call " \o ms[k].call \o ": " \o vk.sig)
+       ELSE IF printedBad # {} THEN
+              LET k == CHOOSE x \in printedBad : \A y \in printedBad : x <= y
+              IN V("condition-modified", "printed condition changed by call " \o (IF k = 0 THEN "1" ELSE ms[k].call))
+       ELSE Drift(r, o)
 
 \* non-trivial: the split has something to separate - a time bound next to another atom
 NonTrivial(r) == r.nt >= 1 /\ r.na >= 2
